@@ -15,7 +15,7 @@ except common.BuildError as e:
     chk.inconclusive_because(str(e)); chk.finish()
 tot = {}
 shards = 8 if quick else 64
-hist = 15 if quick else 500
+hist = 30 if quick else 500
 # every harness process runs up to 16 spinning threads: at most 4 at a time (16 cores), and a generous watchdog
 workers = 8 if quick else 4
 rng = common.SplitMix64(chk.seed * 2654435761 + 8)
@@ -43,14 +43,15 @@ for rep in reports:
     if not rep["benign"]:
         chk.violation("tsan/" + rep["key"], rep["summary"], {"report": rep["text"][:4000]})
 cov = chk.coverage
-cov["evaluations"] = sum(v for k, v in tot.items() if k in ("pool_histories", "poolfull_histories", "countdown_histories", "queue_histories", "lock_histories", "atomic_histories", "memory_histories"))
+cov["evaluations"] = sum(v for k, v in tot.items() if k in ("pool_histories", "poolfull_histories", "poolclear_histories", "poolblocking_histories", "countdown_histories", "queue_histories", "lock_histories", "atomic_histories", "memory_histories"))
 cov["distinct_nontrivial"] = cov["evaluations"]
 cov["rule"] = ("one evaluation = one concurrent history (2..16 threads) on the real ThreadSafeVector / TaskQueue+Task+ThreadLock / ThreadLock / AtomicValue+LockFree / "
                "MemorySpace with generated sizes (pools of 1..64 slots driven to full, tasks declaring 0/1/2 locks incl. the same lock twice), checked against atomic shadow "
                "owners; each history has its own PRNG stream and parameters, so histories are distinct; three jitter regimes + a TSan pass")
 cov["monitor_counters"] = tot
 chk.assumptions += ["get_free_element() (the variant that spins for ever on a full pool) is only used when threads x max-held <= pool size (the property's capacity proviso)"]
-chk.require_nonzero(pool=tot.get("pool_histories"), pool_full=tot.get("poolfull_histories"), countdown=tot.get("countdown_rounds"), refused=tot.get("poolfull_refused_requests"), queue=tot.get("queue_histories"), full=tot.get("pool_full_events"), steals=tot.get("queue_steals"),
+chk.require_nonzero(pool=tot.get("pool_histories"), pool_full=tot.get("poolfull_histories"), pool_clear=tot.get("poolclear_histories"), held_at_clear=tot.get("poolclear_slots_held_at_clear"),
+                    pool_blocking=tot.get("poolblocking_requests_served"), countdown=tot.get("countdown_rounds"), refused=tot.get("poolfull_refused_requests"), queue=tot.get("queue_histories"), full=tot.get("pool_full_events"), steals=tot.get("queue_steals"),
                     same_lock_twice=tot.get("queue_tasks_same_lock_twice"), overflows=tot.get("memory_overflows"), yields=tot.get("jitter_yields"),
                     tsan=tot.get("tsan_histories"))
 chk.finish()
